@@ -315,6 +315,7 @@ pub fn run_property(args: &[String], planner: &dyn Fn(&str) -> Plan) -> i32 {
     let mut out_path: Option<PathBuf> = None;
     let mut confirm_file: Option<PathBuf> = None;
     let mut confirm_por = false;
+    let mut trace_unit: Option<String> = None;
     let mut i = 1;
     while i < args.len() {
         match args[i].as_str() {
@@ -344,6 +345,12 @@ pub fn run_property(args: &[String], planner: &dyn Fn(&str) -> Plan) -> i32 {
                 out_path = args.get(i + 1).map(PathBuf::from);
                 i += 1;
             }
+            "--trace-unit" => {
+                // debugging aid: run the default schedule of the first unit whose name contains the
+                // argument, with tracing on, and print what happened
+                trace_unit = args.get(i + 1).cloned();
+                i += 1;
+            }
             "--known" => {
                 known_arg = args.get(i + 1).map(|s| s.split(',').filter(|x| !x.is_empty()).map(|x| x.to_string()).collect()).unwrap_or_default();
                 i += 1;
@@ -354,6 +361,24 @@ pub fn run_property(args: &[String], planner: &dyn Fn(&str) -> Plan) -> i32 {
     }
     crate::init();
     let plan = planner(&tier);
+    if let Some(pat) = trace_unit {
+        for u in plan.units {
+            if let UnitKind::Explore(job) = u.kind {
+                if job.name.contains(&pat) {
+                    let mut cfg = job.cfg.clone();
+                    cfg.keep_trace = true;
+                    let r = crate::run_one(&cfg, &job.body, &[]);
+                    for l in &r.trace {
+                        println!("{:>9}ns lc={} t{} {}", l.0, l.1, l.2, l.3);
+                    }
+                    println!("unit {}: steps={} outcome={:?} liveness={:?} panic={:?}", job.name, r.steps, r.outcome, r.liveness, r.panic);
+                    std::process::exit(0);
+                }
+            }
+        }
+        eprintln!("no explore unit matches {pat}");
+        std::process::exit(2);
+    }
     if let (Some(u), Some(f)) = (unit_idx, &confirm_file) {
         let code = confirm_child(plan, u, f, confirm_por, out_path);
         // never unwind / drop anything that an abandoned execution may have leaked
